@@ -30,11 +30,15 @@ static int ids_in_use(client_t& c) {
 
 struct X {
   W* w = new W();
-  int nops_started = 0; bool stopped = false; int stop_kind = -1; int disc_op = -1; int nreconn = 0; int restarted = 0; bool destroyed = false;
+  bool armed = false; int nops_started = 0; bool stopped = false; int stop_kind = -1; int disc_op = -1; int nreconn = 0; int restarted = 0; bool destroyed = false;
 
   void ev_start_op() {
     if (nops_started >= VK_OPS || stopped) vk_assume(0);
     nops_started++;
+#ifdef VK_CANCEL_IN_HANDLER
+    // the application calls cancel() from inside the completion handler of this operation (whenever it completes)
+    if (!armed && vk_choose(2)) { armed = true; w->act[w->nops] = 1; vk_reach("cancel-in-handler-armed"); }
+#endif
     switch (vk_choose(6)) {
       case 0: w->publish<qos_e::at_most_once>("t", "p"); break;
       case 1: w->publish<qos_e::at_least_once>("t", "p"); break;
@@ -131,20 +135,17 @@ struct X {
     if (stopped) vk_assume(0);
     if (w->connected()) { if (nreconn >= 1) vk_assume(0); nreconn++; w->drop_connection(); vk::drain(); }
     else if (!w->attempt_in_progress()) vk_assume(0);
+    if (w->acted) { stopped = true; stop_kind = 0; return; }      // a handler that was still queued ran and cancelled the client
     bool ok = w->establish(); vk_assert(ok, "the client reconnects after a connection loss");
     w->send_connack(true, 0, nullptr, 0); w->feed_all(); vk::drain();
   }
   void check() {
+    if (w->acted && !stopped) { stopped = true; stop_kind = 0; vk_reach("cancel-from-a-handler"); }
     for (int i = 0; i < w->nops; i++) {
       vk_assert(w->ops[i].done <= 1, "completion handler invoked more than once");
       if (w->ops[i].done) vk_assert(!w->ops[i].inline_completion, "completion handler invoked from inside the initiating call");
     }
     vk_assert(w->run_done <= 1 + restarted, "async_run completed more than once");
-    if (w->cp) {
-      // an identifier is held exactly while its exchange is outstanding (QoS 1/2 publish, subscribe, unsubscribe)
-      int holding = 0; for (int i = 0; i < w->nops; i++) if (!w->ops[i].done && (w->ops[i].kind == 1 || w->ops[i].kind == 2 || w->ops[i].kind == 10 || w->ops[i].kind == 11)) holding++;
-      vk_assert(ids_in_use(w->c) == holding, "packet identifiers in use differ from the outstanding exchanges (an id leaked or was released early)");
-    }
     if (stopped) {
       // everything outstanding is completed, async_run and async_receive included, and nothing is left to run
       for (int i = 0; i < w->nops; i++) vk_assert(w->ops[i].done == 1, "an operation is still outstanding after cancel() / async_disconnect / destruction");
@@ -159,6 +160,11 @@ struct X {
       }
       vk_reach("drained");
     }
+    if (w->cp) {
+      // an identifier is held exactly while its exchange is outstanding (QoS 1/2 publish, subscribe, unsubscribe)
+      int holding = 0; for (int i = 0; i < w->nops; i++) if (!w->ops[i].done && (w->ops[i].kind == 1 || w->ops[i].kind == 2 || w->ops[i].kind == 10 || w->ops[i].kind == 11)) holding++;
+      vk_assert(ids_in_use(w->c) == holding, "packet identifiers in use differ from the outstanding exchanges (an id leaked or was released early)");
+    }
   }
 };
 void X::delete_client() { w->destroy_client(); }
@@ -168,6 +174,7 @@ extern "C" void h_cancel(void) {
   w->start(); w->connect_ok();
   w->receive();
   for (int step = 0; step < VK_STEPS; step++) {
+    if (w->acted && !x->stopped) { x->stopped = true; x->stop_kind = 0; }
     uint32_t ev = vk_choose(6 + VK_MALFORMED);
     switch (ev) {
       case 0: x->ev_start_op(); break;
